@@ -266,7 +266,10 @@ pub fn run_check(ctx: &Ctx) -> i32 {
         let crowd = crowd_pairs(&subjects, &[33, 65]);
         sweep(ctx, "F<=2 x 11 subjects x crowds of 33 / 65 element observers (never matching, matching other elements, matching the same elements; before and after H) x L0", Space::Frags { k, max: 2 }, &crowd, Levels { l1: false, l2_max_len: 0, bytewise: false, empties: false });
         sweep(ctx, "F<=3 x 11 subjects x 2 observer subsets x L0", Space::Frags { k, max: 3 }, &two, Levels { l1: false, l2_max_len: 0, bytewise: false, empties: false });
-        sweep(ctx, "10 foreign contexts x 58 foreign tag fragments<=2 x 11 subjects x 2 observer subsets x L0,L1", Space::Foreign { max: 2 }, &two, l1);
+        // (the subjects whose handlers see foreign elements or their end tags)
+        let fsubj: Vec<(&str, Vec<HSpec>)> = subjects.iter().enumerate().filter(|(i, _)| [0usize, 3, 4, 5, 8, 9].contains(i)).map(|(_, s)| s.clone()).collect();
+        let ftwo = build_pairs(&fsubj, &[0b001000, 0b111111], &[true]);
+        sweep(ctx, "10 foreign contexts x 58 foreign tag fragments<=2 x 6 subjects x 2 observer subsets x L0,L1", Space::Foreign { max: 2 }, &ftwo, l1);
     } else {
         let full = build_pairs(&subjects, &all_masks, &[true, false]);
         let few = build_pairs(&subjects, &few_masks, &[true, false]);
